@@ -25,9 +25,13 @@ type cfg struct {
 	mode  string
 	n, t  int
 	idset []uint16 // identifiers (node = party) if not 1..n
+	pick  string   // silent mode: order in which the application's member picker lists the nodes ("", "desc", "rot")
 }
 
 func (c cfg) String() string {
+	if c.pick != "" {
+		return fmt.Sprintf("%s-n%dt%d-ids%v-pick-%s", c.mode, c.n, c.t, c.members(), c.pick)
+	}
 	if c.idset != nil {
 		return fmt.Sprintf("%s-n%dt%d-ids%v", c.mode, c.n, c.t, c.idset)
 	}
@@ -65,6 +69,18 @@ func runDKG(c *harness.C, k cfg, r *explore.Recorder) *outcome {
 		members := k.members()
 		w := world.New(members)
 		st := &scen.Stack{Mode: k.mode, KGF: blsb.KeyGenFactory, SF: blsb.SignerFactory, Threshold: k.t - 1, Membership: scen.Identity(members)}
+		if k.pick != "" {
+			order := append([]uint16(nil), members...)
+			switch k.pick {
+			case "desc":
+				for i, j := 0, len(order)-1; i < j; i, j = i+1, j-1 {
+					order[i], order[j] = order[j], order[i]
+				}
+			case "rot":
+				order = append(order[len(order)-1:], order[:len(order)-1]...)
+			}
+			st.Pick = func([]byte, int) []uint16 { return order }
+		}
 		for _, id := range members {
 			st.Build(w, id)
 		}
@@ -471,6 +487,10 @@ func gen(c *harness.C) []harness.Case {
 		for _, k := range []cfg{{mode: "loud", n: 4, t: 3}, {mode: "silent", n: 4, t: 3}, {mode: "loud", n: 4, t: 2}, {mode: "loud", n: 5, t: 3}} {
 			plans = append(plans, plan{k, 0})
 		}
+	}
+	// silent mode: the application's member picker lists the nodes in another order than ascending
+	for _, pk := range []string{"desc", "rot"} {
+		plans = append(plans, plan{cfg{mode: "silent", n: 3, t: 2, pick: pk}, 1}, plan{cfg{mode: "silent", n: 4, t: 3, pick: pk, idset: []uint16{2, 5, 7, 9}}, 0})
 	}
 	// identifiers that are not 1..n (node id = party id): sparse, shifted, unsorted gaps
 	for _, m := range []string{"loud", "silent"} {
